@@ -12,7 +12,11 @@ use crate::{panics, profiles};
 pub struct Rng(u64);
 impl Rng {
     pub fn new(seed: u64) -> Self {
-        Rng(seed.wrapping_mul(0x9E3779B97F4A7C15).wrapping_add(0xD1B54A32D192ED03))
+        // hash the seed first: consecutive seeds must not give shifted copies of one stream
+        let mut z = seed.wrapping_add(0xD1B54A32D192ED03);
+        z = (z ^ (z >> 33)).wrapping_mul(0xFF51AFD7ED558CCD);
+        z = (z ^ (z >> 33)).wrapping_mul(0xC4CEB9FE1A85EC53);
+        Rng(z ^ (z >> 33))
     }
     pub fn next(&mut self) -> u64 {
         self.0 = self.0.wrapping_add(0x9E3779B97F4A7C15);
